@@ -897,6 +897,12 @@ func (g *gen) nodeSeqFile(idx int) {
 		}
 		steps := 0
 		var deleted []int
+		// the raw node (every slot, stale contents included) against Model/Pool.v
+		rawSometimes := func() {
+			if r.chance(30) {
+				g.emit("NRAW %s", nid)
+			}
+		}
 		probeDeleted := func() {
 			// bytes removed earlier: the largest and smallest ever removed, and the latest ones (stale lanes, stale slots)
 			if len(deleted) == 0 {
@@ -947,10 +953,12 @@ func (g *gen) nodeSeqFile(idx int) {
 				}
 				if len(present) < tg && !has {
 					g.emit("NADD %s %x %d", nid, b, next)
+					rawSometimes()
 					present[b] = next
 					next++
 				} else if len(present) > tg && has && len(present) > 2 {
 					g.emit("NDEL %s %x", nid, b)
+					rawSometimes()
 					delete(present, b)
 					deleted = append(deleted, b)
 				} else if len(present) > tg && len(present) <= 2 {
@@ -965,6 +973,7 @@ func (g *gen) nodeSeqFile(idx int) {
 					g.emit("NENUM %s", nid)
 				case 2:
 					g.emit("NDUMP %s", nid)
+					g.emit("NRAW %s", nid)
 				case 3:
 					probeDeleted()
 				default:
@@ -974,6 +983,7 @@ func (g *gen) nodeSeqFile(idx int) {
 			g.emit("NPROBE %s", nid)
 			g.emit("NENUM %s", nid)
 			g.emit("NDUMP %s", nid)
+			g.emit("NRAW %s", nid)
 			probeDeleted()
 			// churn inside the size class: remove one child, add a different byte (slot reuse)
 			for c := 0; c < 4+r.n(8) && len(present) > 2 && len(present) < len(universe); c++ {
@@ -988,12 +998,14 @@ func (g *gen) nodeSeqFile(idx int) {
 					b = pick(r, l)
 				}
 				g.emit("NDEL %s %x", nid, b)
+				rawSometimes()
 				delete(present, b)
 				deleted = append(deleted, b)
 				for tries := 0; tries < 600; tries++ {
 					nb := pick(r, universe)
 					if _, has := present[nb]; !has && nb != b {
 						g.emit("NADD %s %x %d", nid, nb, next)
+						rawSometimes()
 						present[nb] = next
 						next++
 						break
@@ -1001,6 +1013,7 @@ func (g *gen) nodeSeqFile(idx int) {
 				}
 				if len(present) < tg { // the universe had no other byte: put the old one back
 					g.emit("NADD %s %x %d", nid, b, next)
+					rawSometimes()
 					present[b] = next
 					next++
 				}
@@ -1013,6 +1026,7 @@ func (g *gen) nodeSeqFile(idx int) {
 			}
 			g.emit("NPROBE %s", nid)
 			g.emit("NDUMP %s", nid)
+			g.emit("NRAW %s", nid)
 		}
 	}
 }
